@@ -141,13 +141,14 @@ def scope_exit_shape(db, f):
     if len(flags) != 1 or len(funcs) != 1:
         return None
     F, G = flags[0], funcs[0]
+    _NOINL[(id(db), rec.get("id"))] = {((fl["t"] or {}).get("rn") or "?") + "::operator()" for fl in rec.get("fields", []) if fl["n"] == G}
     key = (id(db), rec.get("id"))
     if key not in _ARMED:
         armed = None
         dt = next((g for g in db.functions if g.get("rid") == rec.get("id") and g.get("kind") == "dtor" and "body" in g and not g["dep"]), None)
         if dt is not None:
             flag = ("rd", ("fld", THIS_OBJ, F))
-            for p in Engine(db).run(dt):
+            for p in Engine(db, no_inline=_NOINL[key]).run(dt):
                 runs = [e for e in p.events if e.kind == "CALL" and e.c is not None and q.mentions(e.c, lambda x: x == ("fld", THIS_OBJ, G))]
                 if runs:
                     conds = q.conds_before(p, p.events.index(runs[0]))
@@ -160,6 +161,7 @@ def scope_exit_shape(db, f):
 
 
 _ARMED = {}
+_NOINL = {}     # the exit function's call operator is kept as a call (a named functor would otherwise be inlined and leave no call event)
 
 
 def check_scope_exit(rep, db, f, inst):
@@ -175,7 +177,7 @@ def check_scope_exit(rep, db, f, inst):
     armed_c = ("cmp", "!=" if A else "==", flag, C(0))
     disarmed_c = ("cmp", "==" if A else "!=", flag, C(0))
     if f.get("kind") == "dtor":
-        ps = Engine(db).run(f)
+        ps = Engine(db, no_inline=_NOINL.get((id(db), f.get("rid")), set())).run(f)
         ok = True
         saw_run = False
         for p in ps:
